@@ -2,10 +2,13 @@ package mon
 
 import (
 	"fmt"
+	"reflect"
 	"sort"
 	"time"
 
 	vocab "github.com/go-ap/activitypub"
+
+	"verif/harness/vmodel"
 )
 
 // C17: timestamp ordering is a strict weak order consistent with publication time.
@@ -38,41 +41,39 @@ func tsPool() []tsItem {
 		{"far-future", base.AddDate(100, 0, 0), base},
 		{"far-past-zone", time.Date(1970, 1, 1, 0, 0, 0, 0, plus2), time.Time{}},
 	}
-	mk := []struct {
+	type maker struct {
 		kind string
 		f    func(p, u time.Time, i int) vocab.Item
-	}{
-		{"*Object", func(p, u time.Time, i int) vocab.Item {
-			return &vocab.Object{ID: vocab.IRI(fmt.Sprintf("https://example.com/o/%d", i)), Type: vocab.NoteType, Published: p, Updated: u}
-		}},
-		{"Object", func(p, u time.Time, i int) vocab.Item {
-			return vocab.Object{ID: vocab.IRI(fmt.Sprintf("https://example.com/ov/%d", i)), Type: vocab.ArticleType, Published: p, Updated: u}
-		}},
-		{"*Actor", func(p, u time.Time, i int) vocab.Item {
-			return &vocab.Actor{ID: vocab.IRI(fmt.Sprintf("https://example.com/a/%d", i)), Type: vocab.PersonType, Published: p, Updated: u}
-		}},
-		{"*Activity", func(p, u time.Time, i int) vocab.Item {
-			return &vocab.Activity{ID: vocab.IRI(fmt.Sprintf("https://example.com/act/%d", i)), Type: vocab.CreateType, Published: p, Updated: u}
-		}},
-		{"*OrderedCollection", func(p, u time.Time, i int) vocab.Item {
-			return &vocab.OrderedCollection{ID: vocab.IRI(fmt.Sprintf("https://example.com/c/%d", i)), Type: vocab.OrderedCollectionType, Published: p, Updated: u}
-		}},
-		{"*Tombstone", func(p, u time.Time, i int) vocab.Item {
-			return &vocab.Tombstone{ID: vocab.IRI(fmt.Sprintf("https://example.com/t/%d", i)), Type: vocab.TombstoneType, Published: p, Updated: u}
-		}},
-		{"*Question", func(p, u time.Time, i int) vocab.Item {
-			return &vocab.Question{ID: vocab.IRI(fmt.Sprintf("https://example.com/q/%d", i)), Type: vocab.QuestionType, Published: p, Updated: u}
-		}},
-		{"*Place", func(p, u time.Time, i int) vocab.Item {
-			return &vocab.Place{ID: vocab.IRI(fmt.Sprintf("https://example.com/p/%d", i)), Type: vocab.PlaceType, Published: p, Updated: u}
-		}},
+	}
+	var mk []maker
+	// every object kind, by reflection (a kind whose layout drifts from Object's shows up here)
+	for _, k := range vmodel.Kinds {
+		if k.Name == "Link" {
+			continue
+		}
+		k := k
+		mk = append(mk, maker{"*" + k.Name, func(p, u time.Time, i int) vocab.Item {
+			x := reflect.ValueOf(k.New())
+			x.Elem().FieldByName("ID").Set(reflect.ValueOf(vocab.IRI(fmt.Sprintf("https://example.com/%s/%d", k.Name, i))))
+			x.Elem().FieldByName("Type").Set(reflect.ValueOf(vocab.ActivityVocabularyType(k.SpecificType())))
+			x.Elem().FieldByName("Published").Set(reflect.ValueOf(p))
+			x.Elem().FieldByName("Updated").Set(reflect.ValueOf(u))
+			// decoys: instants that must not influence the order
+			x.Elem().FieldByName("StartTime").Set(reflect.ValueOf(time.Date(2090, 1, 1, 0, 0, 0, 0, time.UTC)))
+			x.Elem().FieldByName("EndTime").Set(reflect.ValueOf(time.Date(1990, 1, 1, 0, 0, 0, 0, time.UTC)))
+			if i%2 == 1 {
+				return x.Elem().Interface().(vocab.Item) // value form
+			}
+			return x.Interface().(vocab.Item)
+		}})
 	}
 	var out []tsItem
 	i := 0
 	for pi, p := range pats {
-		// every pattern on three rotating kinds
-		for k := 0; k < 3; k++ {
-			m := mk[(pi+k*3)%len(mk)]
+		// every pattern on every kind
+		_ = pi
+		for k := 0; k < len(mk); k++ {
+			m := mk[k]
 			key := p.pub
 			if p.upd.After(key) {
 				key = p.upd
@@ -101,7 +102,7 @@ func init() {
 	n := len(pool)
 	Register(&Prop{
 		ID: "C17",
-		Rule: fmt.Sprintf("pool of %d items (8 object kinds x 11 instant patterns: zero, published only, updated only, equal instants in other zones, published<updated and the reverse, nanosecond apart, far future/past) plus untyped and typed nil; exhaustive layer: all %d ordered pairs against the key model (later of published/updated, nil first) and all %d triples for irreflexivity, asymmetry, transitivity and transitivity of incomparability; random layer: permutations of random sub-pools sorted with sort.SliceStable(ItemOrderTimestamp) and compared with an independent sort by key; one case = one (a, *, *) slab of triples or one permutation; non-trivial = slab/permutation containing at least two distinct keys",
+		Rule: fmt.Sprintf("pool of %d items (all 13 object kinds, pointer and value forms, x 11 instant patterns, with start/end time decoys: zero, published only, updated only, equal instants in other zones, published<updated and the reverse, nanosecond apart, far future/past) plus untyped and typed nil; exhaustive layer: all %d ordered pairs against the key model (later of published/updated, nil first) and all %d triples for irreflexivity, asymmetry, transitivity and transitivity of incomparability; random layer: permutations of random sub-pools sorted with sort.SliceStable(ItemOrderTimestamp) and compared with an independent sort by key; one case = one (a, *, *) slab of triples or one permutation; non-trivial = slab/permutation containing at least two distinct keys",
 			n, n*n, n*n*n),
 		Layers: func(tier string) []Layer {
 			return []Layer{
